@@ -60,6 +60,12 @@
 
 #define kNumberOfObjects	1024
 
+#if defined(MMD6_VERIF) && defined(MMD6_VERIF_POOL_OBJECTS)
+	// Verification hook: slab size override so that slab boundaries are reachable by a model checker
+	#undef kNumberOfObjects
+	#define kNumberOfObjects	MMD6_VERIF_POOL_OBJECTS
+#endif
+
 
 void pool_add_slab(pool * p) {
 	void * slab = malloc(p->object_size * kNumberOfObjects);
